@@ -23,6 +23,12 @@ import (
 // lock order).
 //
 
+// maxWrite is the largest WRITE accepted (announced as wtmax).  Besides its
+// data blocks (one more if the write is not block-aligned) a WRITE dirties the
+// inode, up to two bitmap blocks and up to four index blocks in the same
+// journal transaction, which holds jrnl.LogBlocks blocks.
+const maxWrite uint64 = jrnl.LogBytes - 10*4096
+
 func errRet(op *fstxn.FsTxn, status *nfstypes.Nfsstat3, err nfstypes.Nfsstat3) {
 	*status = err
 	util.DPrintf(2, "errRet %v", err)
@@ -298,7 +304,7 @@ func (nfs *Nfs) NFSPROC3_WRITE(args nfstypes.WRITE3args) nfstypes.WRITE3res {
 		errRet(op, &reply.Status, nfstypes.NFS3ERR_INVAL)
 		return reply
 	}
-	if uint64(args.Count) >= jrnl.LogBytes {
+	if uint64(args.Count) > maxWrite {
 		errRet(op, &reply.Status, nfstypes.NFS3ERR_INVAL)
 		return reply
 	}
@@ -881,7 +887,7 @@ func (nfs *Nfs) NFSPROC3_FSINFO(args nfstypes.FSINFO3args) nfstypes.FSINFO3res {
 	reply.Resok.Rtmax = 16 * 4096
 	reply.Resok.Rtmult = 4096
 	reply.Resok.Rtpref = reply.Resok.Rtmax
-	reply.Resok.Wtmax = nfstypes.Uint32(jrnl.LogBytes)
+	reply.Resok.Wtmax = nfstypes.Uint32(maxWrite)
 	reply.Resok.Wtpref = 16 * 4096
 	reply.Resok.Wtmult = 4096
 	reply.Resok.Dtpref = 16 * 4096
